@@ -53,7 +53,9 @@ FaultKinds == {"undefined-symbol", "duplicate-label", "duplicate-constant", "dup
                "label-in-repeat", "cyclic-definition", "align-zero", "invalid-rad50-character",
                "rad50-code-too-large", "overlong-tape-name", "excess-hash",
                \* structural directives inside a .repeat whose count is a forward reference (the body is compiled late)
-               "end-in-lazy-repeat", "once-in-lazy-repeat", "include-in-lazy-repeat", "rad50-digits-overflow"}
+               "end-in-lazy-repeat", "once-in-lazy-repeat", "include-in-lazy-repeat", "rad50-digits-overflow",
+               \* characters outside an alphabet that Unicode case mapping folds into it (dotted capital I, Kelvin sign, dotless i, long s)
+               "caret-r-case-folding-character", "rad50-case-folding-character", "mnemonic-case-folding-character"}
 
 (* ---- terminal classes (the renderer's table has one entry per name) ---- *)
 AtomClasses == {"oct", "dec", "d89", "cnum", "caretnum", "negnum", "bignum", "name", "namecolon", "local", "localcolon",
@@ -68,7 +70,7 @@ OtherTerminals == {"nl", ",", ":", "::", "=", "==", "(", ")", ")+", "-(", "@", "
 Terminals == AtomClasses \cup InfixClasses \cup OtherTerminals \cup {"fault:" \o k : k \in FaultKinds}
 
 MaxStmts == 60
-CharSetSize == 31          \* the character set of section 4 (31 characters; the list is in harness/grammar.py)
+CharSetSize == 35          \* the character set of section 4 (35 characters; the list is in harness/grammar.py)
 
 (* ---- productions: nonterminal (with depth d) -> set of right-hand sides ---- *)
 Deeper(d) == d < MaxDepth
